@@ -93,8 +93,7 @@ def texts_of(trees):
 
 
 def norm(line):
-    if line.startswith("ERR"):
-        return "ERR"
+    """whole line: `OK consumed/total tree` or `ERR consumed/total line:col:col ...` (floats numerically)"""
     return G.norm_floats(line)
 
 
